@@ -44,11 +44,11 @@ Proof.
   rewrite !json_str_valid, IH by assumption. reflexivity.
 Qed.
 
-Lemma request_roundtrip q : req_representable q = true -> child_view q = q.
+Lemma request_roundtrip q : req_representable q = true -> child_view q = inproc_view q.
 Proof.
   unfold req_representable. intros H.
   repeat (apply andb_true_iff in H as [H ?]).
-  destruct q; unfold child_view; simpl in *.
+  destruct q; unfold child_view, inproc_view, authn_child, authn_inproc; simpl in *.
   rewrite !json_str_valid, map_json_valid, !map_kv_valid, map_parts_valid by assumption.
   reflexivity.
 Qed.
@@ -77,6 +77,10 @@ Proof.
   rewrite json_str_valid by assumption. rewrite fold_single by assumption. reflexivity.
 Qed.
 
+(* every kind of caller (anonymous, password, accepted token, presented-but-rejected token) is reported alike *)
+Lemma authn_agree a b : authn_child a b = authn_inproc a b.
+Proof. destruct a, b; reflexivity. Qed.
+
 (* ---- where the trip is not the identity *)
 Definition hx : str := [88].
 Definition o_multi : outcome := {| o_status := 200; o_headers := [(hx, [[97]; [98]])]; o_body := [111;107]; o_json := false |}.
@@ -84,7 +88,7 @@ Definition o_binary : outcome := {| o_status := 200; o_headers := []; o_body := 
 Definition o_json_ct : outcome := {| o_status := 200; o_headers := []; o_body := [123;125]; o_json := true |}.
 Definition q_intpart : view :=
   {| v_method := [71;69;84]; v_headers := []; v_params := []; v_parts := [([105;100], UInt 42)]; v_body := [];
-     v_user := []; v_admin := false; v_auth := false; v_bearer := false; v_perms := [] |}.
+     v_user := []; v_admin := false; v_auth := false; v_bearer := false; v_perms := []; v_authn := 0 |}.
 
 Lemma multi_header_differs : child_wire o_multi <> inproc_wire o_multi.
 Proof. vm_compute. discriminate. Qed.
@@ -92,5 +96,5 @@ Lemma binary_body_differs : child_wire o_binary <> inproc_wire o_binary.
 Proof. vm_compute. discriminate. Qed.
 Lemma json_content_type_differs : child_wire o_json_ct <> inproc_wire o_json_ct.
 Proof. vm_compute. discriminate. Qed.
-Lemma int_part_differs : child_view q_intpart <> q_intpart.
+Lemma int_part_differs : child_view q_intpart <> inproc_view q_intpart.
 Proof. vm_compute. discriminate. Qed.
